@@ -96,6 +96,8 @@ func (p *exeParser) readOp(opType OpType) (op *Op, err error) {
 	op = &Op{Type: opType, SelBase: SelBase{line: p.line, col: p.col}}
 
 	if _, err = p.skipSpace(); err == nil {
+		// The name can be on a later line than the operation type.
+		op.line = p.line
 		op.col = p.col
 		op.Name, err = p.readToken()
 	}
